@@ -34,6 +34,9 @@ type FmtParams struct {
 	Plans []simrt.Plan `json:"plans"` // one per step, cycled
 	// Includer: for an include file under test, the rule file that includes it (C10 runs generate on it)
 	Includer string `json:"includer,omitempty"`
+	// spellings of the check switch on the command line: FormatFlag is "" or an explicit false value, CheckFlag a true one
+	FormatFlag string `json:"format_flag,omitempty"`
+	CheckFlag  string `json:"check_flag,omitempty"`
 }
 
 func ws(t *rapid.T, label string, atLeastOne bool) string {
@@ -318,6 +321,10 @@ func drawFmtFile(t *rapid.T, w *World, maxLines int) FmtFile {
 		}
 		var sb strings.Builder
 		if chance(t, 20, "soup-header") {
+			if chance(t, 35, "soup-leadblank") {
+				// the header is there, but not at the very top
+				sb.WriteString(pick(t, []string{"\n", " \n", "\n\n", "\t\n\n"}, "soup-leadblank-v"))
+			}
 			sb.WriteString(raHeader)
 			if chance(t, 60, "soup-header-blank") {
 				sb.WriteString("\n")
@@ -334,7 +341,8 @@ func drawFmtFile(t *rapid.T, w *World, maxLines int) FmtFile {
 	default:
 		f.Mode = "boundary"
 		content = pick(t, []string{"", "\n", "\n\n\n", " ", " \t \n", "\r\n", raHeader, raHeader + "\n", raHeader + "\n\n", strings.TrimRight(raHeader, "\n"),
-			raHeader + "foo\n", raHeader + "\nfoo", "foo", "##!", "\t##!<\n", raHeader + "\n" + raHeader, raHeader + raHeader + "foo\n", raHeader + "\n" + raHeader + "\nbar\n"}, "boundary")
+			raHeader + "foo\n", raHeader + "\nfoo", "foo", "##!", "\t##!<\n", raHeader + "\n" + raHeader, raHeader + raHeader + "foo\n", raHeader + "\n" + raHeader + "\nbar\n",
+			"\n" + raHeader + "\nfoo\n", "\n" + raHeader + "\n##! note\nfoo\nbar\n", " \n" + raHeader + "foo\n", "\n\n" + raHeader + "\nfoo\n", "\n" + raHeader}, "boundary")
 		switch content {
 		case "", "\n", "\n\n\n", " ", " \t \n", "\r\n", raHeader + "\n", raHeader + "\n\n", raHeader, strings.TrimRight(raHeader, "\n"):
 			f.Canon = raHeader + "\n"
@@ -367,6 +375,10 @@ func genFmt(t *rapid.T, tier string) (*World, any) {
 	for i := 0; i < 4; i++ {
 		p.Plans = append(p.Plans, drawPlan(t, fmt.Sprintf("plan%d", i), false))
 	}
+	p.CheckFlag = pick(t, []string{"--check", "--check", "-c", "--check=true", "-c=true"}, "checkflag")
+	if chance(t, 15, "formatflag") {
+		p.FormatFlag = pick(t, []string{"--check=false", "-c=false"}, "formatflag-v")
+	}
 	return w, p
 }
 
@@ -392,7 +404,11 @@ func evalC09(sc *Scenario, sim *Sim) ([]Violation, bool, string) {
 	}
 	check := func(tag string) Result {
 		before := sb.Snap()
-		r := sb.Run(Step{Argv: []string{"regex", "format", "--check", f.Arg}, Cwd: "crs", Plan: plan()})
+		cf := p.CheckFlag
+		if cf == "" {
+			cf = "--check"
+		}
+		r := sb.Run(Step{Argv: []string{"regex", "format", cf, f.Arg}, Cwd: "crs", Plan: plan()})
 		after := sb.Snap()
 		if d := before.Diff(after, true); len(d) > 0 {
 			add("check-never-writes", "disk", "`format --check` ("+tag+") changed the tree: "+strings.Join(d, " "), "")
@@ -403,6 +419,9 @@ func evalC09(sc *Scenario, sim *Sim) ([]Violation, bool, string) {
 		return r
 	}
 	format := func() Result {
+		if p.FormatFlag != "" {
+			return sb.Run(Step{Argv: []string{"regex", "format", p.FormatFlag, f.Arg}, Cwd: "crs", Plan: plan()})
+		}
 		return sb.Run(Step{Argv: []string{"regex", "format", f.Arg}, Cwd: "crs", Plan: plan()})
 	}
 	b0 := sb.MustRead(f.Path)
@@ -410,6 +429,13 @@ func evalC09(sc *Scenario, sim *Sim) ([]Violation, bool, string) {
 	f1 := format()
 	b1 := sb.MustRead(f.Path)
 	if f1.Exit != 0 {
+		if p.FormatFlag != "" {
+			// the switch spelled with an explicit false value is the switch left out: the plain spelling must refuse the file as well
+			if pf := sb.Run(Step{Argv: []string{"regex", "format", f.Arg}, Cwd: "crs", Plan: plan()}); pf.Exit == 0 {
+				add("check-agrees", "explicit-false-is-not-absent", fmt.Sprintf("`format %s` failed (exit %d, file unchanged=%v) where `format` without the switch succeeds", p.FormatFlag, f1.Exit, bytes.Equal(b0, b1)), string(f1.Stdout)+string(f1.Stderr))
+				return viol, true, ""
+			}
+		}
 		// format refused the file (e.g. unsupported flag): loudness is C16's business; nothing to compare
 		return viol, false, ""
 	}
